@@ -228,6 +228,12 @@ func (r *runner) history(cfg histCfg) {
 		}
 		factor := modelNonceFactor(n, h)
 		mine := cfg.mineProb > 0 && D.Cmp(feasible) <= 0 && (rng.IntN(cfg.mineProb) == 0 || (forkAt(nt, h) != "" && rng.IntN(3) == 0))
+		if mine { // feasibility is decided on the target the header must really meet
+			if pt := modelPoWTarget(hs); pt.Sign() == 0 || invFloor(pt).Cmp(feasible) > 0 {
+				mine = false
+				b.Count("mining_skipped_target_infeasible_although_difficulty_feasible", 1)
+			}
+		}
 		var blk types.Block
 		var bh types.BlockHeader
 		if useBlocks {
